@@ -38,13 +38,18 @@ def hf(s):
 
 
 # ------------------------------------------------------------------ scenarios
-def make_data(rng, n, ch):
+SCALES = [0, 0, 0, 0, -60, -30, -10, 10, 40]     # data multiplied by 2**e (results scale exactly)
+
+
+def make_data(rng, n, ch, scale_exp=None):
     """structured + random data; ch == 0 means a 1-d series"""
     rows = max(ch, 1)
     t = np.arange(n)
     out = []
+    if scale_exp is None:
+        scale_exp = rng.choice(SCALES)
     for _ in range(rows):
-        off = rng.choice([0.0, 3.0, -20.0, 10.0, 0.5])
+        off = rng.choice([0.0, 3.0, -20.0, 10.0, 0.5, 1.0e6, -4096.0])
         x = off + rng.choice([1.0, 0.25, 4.0]) * np.array([rng.gauss(0, 1) for _ in range(n)])
         for _k in range(rng.randint(0, 2)):
             f = rng.uniform(0.01, 0.49)
@@ -52,7 +57,7 @@ def make_data(rng, n, ch):
         if rng.random() < 0.1:
             x = x + 0.05 * t
         out.append(x)
-    a = np.array(out)
+    a = np.array(out) * 2.0 ** scale_exp
     return a[0] if ch == 0 else a
 
 
@@ -86,9 +91,34 @@ def gen_series(rng, nmin, nmax, odd=None):
     return {"n": n, "ch": ch, "unit": unit, "t0": fh(t0), "spec": spec, "data": data_json(make_data(rng, n, ch))}
 
 
+VARIANTS = ["plain", "plain", "plain", "fortran", "strided", "uniformtime", "positional", "npscalars", "copied"]
+
+
+def vary_array(d, variant):
+    """the same values in an array that is laid out / derived differently"""
+    d = np.asarray(d, dtype=float)
+    if variant == "fortran" and d.ndim == 2:
+        return np.asfortranarray(d)
+    if variant == "strided":
+        big = np.zeros(d.shape[:-1] + (2 * d.shape[-1],))
+        big[..., ::2] = d
+        return big[..., ::2]                 # non-contiguous view
+    if variant == "copied":
+        return (d + 0).view(np.ndarray)[...]  # ufunc result, viewed
+    return d
+
+
 def build_series(sc, data=None):
     import nitime.timeseries as ts
     d = data_from(sc["data"]) if data is None else data
+    variant = sc.get("variant", "plain")
+    d = vary_array(d, variant)
+    if variant == "uniformtime":
+        # the same axis handed over as a UniformTime object
+        kw0 = {"sampling_rate": hf(sc["spec"]["rate"])} if "rate" in sc["spec"] else \
+              {"sampling_interval": hf(sc["spec"]["interval"])}
+        ut = ts.UniformTime(length=d.shape[-1], t0=hf(sc["t0"]), time_unit=sc["unit"], **kw0)
+        return ts.TimeSeries(d, time=ut, time_unit=sc["unit"])
     kw = {}
     if "rate" in sc["spec"]:
         kw["sampling_rate"] = hf(sc["spec"]["rate"])
@@ -167,7 +197,15 @@ def record():
 def analyzer(T, cfg):
     from nitime.analysis import FilterAnalyzer
     ub = None if cfg["ub"] is None else hf(cfg["ub"])
-    return FilterAnalyzer(T, lb=hf(cfg["lb"]), ub=ub, boxcar_iterations=cfg.get("iters", 2),
+    lb = hf(cfg["lb"])
+    variant = cfg.get("call", "keyword")
+    if variant == "positional":
+        return FilterAnalyzer(T, lb, ub, cfg.get("iters", 2), cfg.get("order", 8), cfg.get("gpass", 1),
+                              cfg.get("gstop", 60), cfg.get("ftype", "ellip"), cfg.get("win", "hamming"))
+    if variant == "npscalars":
+        lb = np.float64(lb) if lb != 0 else 0            # python int 0, numpy scalars
+        ub = None if ub is None else np.float64(ub)
+    return FilterAnalyzer(T, lb=lb, ub=ub, boxcar_iterations=cfg.get("iters", 2),
                           filt_order=cfg.get("order", 8), gpass=cfg.get("gpass", 1), gstop=cfg.get("gstop", 60),
                           iir_ftype=cfg.get("ftype", "ellip"), fir_win=cfg.get("win", "hamming"))
 
@@ -268,6 +306,8 @@ def cases_of(sc):
     par = "odd" if n % 2 else "even"
 
     def add(coq, kind, nontrivial=True):
+        if sc.get("oracle_only"):
+            return
         out_cases.append(Case(coq, {"scenario": sc, "kind": kind}, "%s/%s/%s" % (kind, sc["band"], par), nontrivial))
 
     for method in sc["methods"]:
@@ -411,7 +451,9 @@ def filtfilt_direct_cases(rng):
 
 # ------------------------------------------------------------------ the oracle (statement checks, numpy)
 def scale_of(a):
-    return max(1.0, float(np.max(np.abs(a))))
+    """magnitude of the data: every tolerance of the oracle is relative to it (no absolute floor)"""
+    m = float(np.max(np.abs(a)))
+    return m if m > 0 else 1.0
 
 
 def true_band_fail(x, y, Fs, lb, ub, coded=False):
@@ -420,7 +462,7 @@ def true_band_fail(x, y, Fs, lb, ub, coded=False):
     -> None | (bin, what, observed, required)"""
     n = len(x)
     X, Y = np.fft.fft(x), np.fft.fft(y)
-    tol = 1e-7 * max(1.0, float(np.max(np.abs(X))))
+    tol = 1e-7 * (float(np.max(np.abs(X))) or 1.0)
     F = Fraction(Fs)
     lbq = Fraction(lb)
     ubq = F / 2 if ub is None else Fraction(ub)
@@ -480,7 +522,7 @@ def oracle(sc, res=None):
     fails = []
     T = build_series(sc)
     cfg = sc["cfg"]
-    Fs = float(T.sampling_rate)
+    Fs = spec_rate_hz(sc)          # from the scenario, not from the library object
     lb = hf(cfg["lb"])
     ub = None if cfg["ub"] is None else hf(cfg["ub"])
     ain = axis_of(T)
@@ -521,7 +563,7 @@ def oracle(sc, res=None):
                                   float(np.mean(y)), float(np.mean(x))))
                 break
         # linearity: f(a x + b z) = a f(x) + b f(z), z a deterministic second data set
-        z = np.cos(0.37 * np.arange(T.data.size).reshape(T.data.shape) ** 1.3) * sc_ + 1.0
+        z = (np.cos(0.37 * np.arange(T.data.size).reshape(T.data.shape) ** 1.3) + 1.0) * sc_
         a_, b_ = 1.5, -0.75
         o2, e2 = run_method(build_series(sc, z), cfg, method)[:2]
         o3, e3 = run_method(build_series(sc, a_ * T.data + b_ * z), cfg, method)[:2]
@@ -649,7 +691,63 @@ def gen_scenario(rng, nmax, i):
                 "ftype": rng.choice(["ellip", "ellip", "butter", "cheby1"])}
     s["band"] = kind
     s["methods"] = list(METHODS)
+    v = rng.choice(VARIANTS)
+    if v in ("positional", "npscalars"):
+        s["cfg"]["call"] = v
+    elif v != "plain":
+        s["variant"] = v
     return s
+
+
+UFACT = {"s": 1.0, "ms": 1e-3, "us": 1e-6}
+
+
+def spec_rate_hz(sc):
+    """sampling rate in Hz from the scenario itself (not read back from the library object)"""
+    if "rate" in sc["spec"]:
+        return hf(sc["spec"]["rate"])
+    return 1.0 / (hf(sc["spec"]["interval"]) * UFACT[sc["unit"]])
+
+
+def large_scenarios(rng, sizes, kcase_sizes=()):
+    """the quantifier has no upper bound on the length: lengths just above powers of two, primes, a few
+    thousand samples; checked by the statement oracle (numpy), too large for exact Q evaluation.
+    `kcase_sizes`: mid-size series with integer-valued data that also go through K."""
+    out = []
+    for n in list(sizes) + list(kcase_sizes):
+        k = n in kcase_sizes
+        ch = rng.choice([0, 1, 2]) if not k else 1
+        unit = rng.choice(["s", "ms", "us"])
+        rate = rng.choice([1.0, 2.0, 250.0, 0.5]) if not k else n / 8.0
+        spec = {"rate": fh(rate)} if rng.random() < 0.7 or k else {"interval": fh(rng.choice([0.5, 0.004, 2.0]))}
+        if k:
+            d = np.array([[float(rng.randint(-9, 9)) for _ in range(n)]])
+        else:
+            d = make_data(rng, n, ch)
+        sc = {"n": n, "ch": ch, "unit": unit, "t0": fh(rng.choice([5.0, 1.25, 123.0])), "spec": spec,
+              "data": data_json(d)}
+        Fs = spec_rate_hz(sc)
+        kind = rng.choice(["low", "high", "band"])
+        lo, hi = sorted([rng.uniform(0.15, 0.8), rng.uniform(0.15, 0.8)])
+        if hi - lo < 0.1:
+            hi = min(0.85, lo + 0.2)
+        if rng.random() < 0.5:                       # edges exactly on bins of the true grid
+            lo = round(lo * (n // 2)) / (n // 2)
+            hi = round(hi * (n // 2)) / (n // 2)
+        lb, ub = {"low": (0.0, hi * Fs / 2), "high": (lo * Fs / 2, None), "band": (lo * Fs / 2, hi * Fs / 2)}[kind]
+        sc["cfg"] = {"lb": fh(lb), "ub": None if ub is None else fh(ub), "order": rng.choice([8, 64, 128]) if not k else 8,
+                     "iters": rng.choice([1, 2, 3]), "win": "hamming", "ftype": "ellip"}
+        sc["band"] = kind
+        sc["methods"] = list(METHODS) if not k else ["fourier", "boxcar", "fir"]
+        if not k:
+            sc["oracle_only"] = True
+            v = rng.choice(VARIANTS)
+            if v in ("positional", "npscalars"):
+                sc["cfg"]["call"] = v
+            elif v != "plain":
+                sc["variant"] = v
+        out.append(sc)
+    return out
 
 
 def special_scenarios(rng):
@@ -704,13 +802,19 @@ def run(ctx):
     g = ctx.check_gen("G_grid", gen_grid_table(), ["get_freqs_is_model_grid"])
     rng = ctx.rng
     nmax = ctx.scale(64, 128)
-    scen = corpus() + special_scenarios(rng) + [gen_scenario(rng, nmax, i) for i in range(ctx.scale(70, 320))]
+    big = [1024, 1025, 2049, 4097, 1031, 3000, 4096] + ([] if ctx.quick else [8193, 16385, 10007, 2048, 5000, 997])
+    scen = corpus() + special_scenarios(rng) + large_scenarios(rng, big, kcase_sizes=(257, 258)) + \
+        [gen_scenario(rng, nmax, i) for i in range(ctx.scale(70, 320))]
     cases, results = [], []
     skipped = {"fourier-float-boundary": 0}
     for s in scen:
         cs, res = cases_of(s)
         cases += cs
         results.append((s, res, cs))
+        if s.get("oracle_only"):
+            for m in s["methods"]:
+                ctx.count_case(Case("oracle-only %s n=%d %s" % (m, s["n"], s["data"]["v"][0]), {"scenario": "large"},
+                                    "oracle-only/%s/n>=1024" % m, nontrivial=res[m][0] is not None))
     direct = []
     for i in range(ctx.scale(120, 800)):
         sc = boxfilter_case(rng, ctx.scale(40, 120))
@@ -754,7 +858,9 @@ def run(ctx):
         "n": len(probes), "failed": sum(1 for p in probes if not p["ok"]), "results": probes}
     ctx.extra["model_impl_disagreements"] = len(bad)
     ctx.extra["scenarios"] = len(scen)
-    ctx.extra["rule"] = ("seeded scenarios: series length 3..%d of both parities, 1-d and 1..4 channels, units s/ms/us, non-zero t0, "
+    ctx.extra["rule"] = ("seeded scenarios: series length 3..%d of both parities in K, plus oracle-only lengths 1024..4097 (16385 thorough) "
+                         "incl. 2^k+1 and primes; data scaled by 2^-60..2^40 with offsets up to 1e6, tolerances relative to the data scale; "
+                         "inputs also as Fortran-ordered / strided / ufunc-derived arrays, via a UniformTime object, positional and numpy-scalar arguments; 1-d and 1..4 channels, units s/ms/us, non-zero t0, "
                          "built from a rate or from an interval; low/high/band/all-pass edges on true bins, on coded bins, "
                          "between bins, random; filter orders 2..12, windows, IIR types, boxcar iterations 0..4; every "
                          "method of FilterAnalyzer + boxcar_filter and FilterAnalyzer.filtfilt called directly. A case is one "
